@@ -78,3 +78,7 @@ Proof.
   apply (proj1 (missing_id_generate _ _ _ _ Hgen (types_equal missing_ex_reg) missing_ex_unique eq_refl)).
   exact Hbad.
 Qed.
+
+Example missing_ex_gen_verdict :
+  gen_verdict missing_ex_reg ex_set = (DFail (FMissing 7), false).
+Proof. vm_compute. reflexivity. Qed.
